@@ -44,22 +44,50 @@ var c23Codecs = map[string]c23CodecDef{
 	"vp9":  {"vp9", webrtc.RTPCodecCapability{MimeType: webrtc.MimeTypeVP9, ClockRate: 90000, SDPFmtpLine: "profile-id=0"}, 98, webrtc.RTPCodecTypeVideo},
 	"h264": {"h264", webrtc.RTPCodecCapability{MimeType: webrtc.MimeTypeH264, ClockRate: 90000, SDPFmtpLine: "level-asymmetry-allowed=1;packetization-mode=1;profile-level-id=42001f"}, 102, webrtc.RTPCodecTypeVideo},
 	"av1":  {"av1", webrtc.RTPCodecCapability{MimeType: webrtc.MimeTypeAV1, ClockRate: 90000}, 45, webrtc.RTPCodecTypeVideo},
+	// the further variants RegisterDefaultCodecs registers for one codec family:
+	// same mime type, clock rate and channels, another fmtp line
+	"h264-pm0":        {"h264-pm0", c23H264("0", "42001f"), 30, webrtc.RTPCodecTypeVideo},
+	"h264-42e01f":     {"h264-42e01f", c23H264("1", "42e01f"), 32, webrtc.RTPCodecTypeVideo},
+	"h264-42e01f-pm0": {"h264-42e01f-pm0", c23H264("0", "42e01f"), 34, webrtc.RTPCodecTypeVideo},
+	"h264-4d001f":     {"h264-4d001f", c23H264("1", "4d001f"), 36, webrtc.RTPCodecTypeVideo},
+	"h264-4d001f-pm0": {"h264-4d001f-pm0", c23H264("0", "4d001f"), 38, webrtc.RTPCodecTypeVideo},
+	"vp9-p2":          {"vp9-p2", webrtc.RTPCodecCapability{MimeType: webrtc.MimeTypeVP9, ClockRate: 90000, SDPFmtpLine: "profile-id=2"}, 40, webrtc.RTPCodecTypeVideo},
+	"h264-64001f":     {"h264-64001f", c23H264("1", "64001f"), 42, webrtc.RTPCodecTypeVideo},
+}
+
+func c23H264(pm, plid string) webrtc.RTPCodecCapability {
+	return webrtc.RTPCodecCapability{MimeType: webrtc.MimeTypeH264, ClockRate: 90000,
+		SDPFmtpLine: "level-asymmetry-allowed=1;packetization-mode=" + pm + ";profile-level-id=" + plid}
 }
 
 var c23VideoOrder = []string{"vp8", "h264", "av1", "vp9"}
+
+// with the variants, in the order of RegisterDefaultCodecs: the families'
+// first entries stand BEFORE their other variants
+var c23VideoOrderVariants = []string{"vp8", "h264", "h264-pm0", "h264-42e01f", "h264-42e01f-pm0", "h264-4d001f", "h264-4d001f-pm0",
+	"av1", "vp9", "vp9-p2", "h264-64001f"}
+
+func c23IsVariant(codec string) bool {
+	for _, n := range c23VideoOrder {
+		if n == codec {
+			return false
+		}
+	}
+	return codec != "opus"
+}
 
 // c23Engine registers opus and the four video codecs (in a fixed order), each
 // video codec followed by its RTX codec when rtx is set, flexfec-03 when fec is
 // set. ptShift moves every payload type (distinct tables on the two sides make
 // "the negotiated payload type" differ from the sender's own).
 func c23Engine(rtx, fec bool, ptShift int) *webrtc.MediaEngine {
-	return c23EngineSwap(rtx, fec, ptShift, false)
+	return c23EngineSwap(rtx, fec, ptShift, false, false)
 }
 
 // c23EngineSwap: with swap, VP8 and H264 exchange their payload types, so that
 // a payload type of the other side's table names a different codec in this
 // side's registered table (the negotiated table must win).
-func c23EngineSwap(rtx, fec bool, ptShift int, swap bool) *webrtc.MediaEngine {
+func c23EngineSwap(rtx, fec bool, ptShift int, swap, variants bool) *webrtc.MediaEngine {
 	me := &webrtc.MediaEngine{}
 	must := func(err error) {
 		if err != nil {
@@ -70,7 +98,11 @@ func c23EngineSwap(rtx, fec bool, ptShift int, swap bool) *webrtc.MediaEngine {
 	op := c23Codecs["opus"]
 	must(me.RegisterCodec(webrtc.RTPCodecParameters{RTPCodecCapability: op.Cap, PayloadType: webrtc.PayloadType(int(op.PT) - ptShift)}, webrtc.RTPCodecTypeAudio))
 	rtxPT := 70
-	for _, n := range c23VideoOrder {
+	order := c23VideoOrder
+	if variants {
+		order = c23VideoOrderVariants
+	}
+	for _, n := range order {
 		d := c23Codecs[n]
 		cp := d.Cap
 		cp.RTCPFeedback = fb
@@ -516,8 +548,9 @@ type c23Media struct {
 	FEC           bool        `json:"fec"`
 	Data          bool        `json:"data"`
 	AnswererSends bool        `json:"answerer_sends"`
-	PTShift       int         `json:"pt_shift"` // the answerer's own payload-type table is shifted by this
-	PTSwap        bool        `json:"pt_swap"`  // the answerer's table has VP8 and H264 payload types exchanged
+	PTShift       int         `json:"pt_shift"`           // the answerer's own payload-type table is shifted by this
+	PTSwap        bool        `json:"pt_swap"`            // the answerer's table has VP8 and H264 payload types exchanged
+	Variants      bool        `json:"variants,omitempty"` // both tables carry every H264 / VP9 variant of RegisterDefaultCodecs
 	Shim          *e2eShim    `json:"shim,omitempty"`
 	Nonce         int         `json:"nonce"`
 }
@@ -594,7 +627,91 @@ type c23Announced struct {
 	ssrc, rtx     uint32
 	hasSSRC       bool
 	pts           map[string]int // lower-case encoding name -> first payload type
+	codecs        []c23AnnCodec  // rtpmap lines in order, each with its fmtp line
 	direction     string
+}
+
+type c23AnnCodec struct {
+	pt   int
+	name string // lower-case encoding name
+	fmtp string
+}
+
+func c23Params(line string) map[string]string {
+	out := map[string]string{}
+	for _, p := range strings.Split(line, ";") {
+		p = strings.TrimSpace(p)
+		if p == "" {
+			continue
+		}
+		k, v, _ := strings.Cut(p, "=")
+		out[strings.ToLower(strings.TrimSpace(k))] = strings.TrimSpace(v)
+	}
+	return out
+}
+
+// "the same codec format", as the RTP payload format specifications define it
+// (the harness's own reading; not internal/fmtp): H264 (RFC 6184): the same
+// packetization-mode and the same profile_idc and profile-iop, i.e. the first
+// two bytes of profile-level-id -- the level may differ; VP9: the same
+// profile-id (default 0); AV1: the same profile (default 0); anything else:
+// the same parameters.
+func c23SameFormat(name, a, b string) bool {
+	pa, pb := c23Params(a), c23Params(b)
+	def := func(m map[string]string, k, d string) string {
+		if v, ok := m[k]; ok {
+			return v
+		}
+		return d
+	}
+	switch name {
+	case "h264":
+		ma, oka := pa["packetization-mode"]
+		mb, okb := pb["packetization-mode"]
+		la, lb := strings.ToLower(pa["profile-level-id"]), strings.ToLower(pb["profile-level-id"])
+		return oka && okb && ma == mb && len(la) >= 4 && len(lb) >= 4 && la[:4] == lb[:4] && c23IsHex(la) && c23IsHex(lb)
+	case "vp9":
+		return def(pa, "profile-id", "0") == def(pb, "profile-id", "0")
+	case "av1":
+		return def(pa, "profile", "0") == def(pb, "profile", "0")
+	}
+	if len(pa) != len(pb) {
+		return false
+	}
+	for k, v := range pa {
+		if w, ok := pb[k]; !ok || w != v {
+			return false
+		}
+	}
+	return true
+}
+
+func c23IsHex(s string) bool {
+	if len(s)%2 != 0 {
+		return false
+	}
+	for _, c := range s {
+		if !(c >= '0' && c <= '9' || c >= 'a' && c <= 'f' || c >= 'A' && c <= 'F') {
+			return false
+		}
+	}
+	return true
+}
+
+func c23EncName(mime string) string {
+	return strings.ToLower(strings.SplitN(mime, "/", 2)[1])
+}
+
+// the payload type a description negotiates for a codec: the first rtpmap of
+// that encoding name whose fmtp line names the same format
+func (a *c23Announced) negotiatedPT(c webrtc.RTPCodecCapability) (int, bool) {
+	name := c23EncName(c.MimeType)
+	for _, x := range a.codecs {
+		if x.name == name && c23SameFormat(name, x.fmtp, c.SDPFmtpLine) {
+			return x.pt, true
+		}
+	}
+	return -1, false
 }
 
 func c23ReadDescription(raw string) (map[string]*c23Announced, error) {
@@ -640,6 +757,18 @@ func c23ReadDescription(raw string) (map[string]*c23Announced, error) {
 					if _, ok := a.pts[name]; !ok {
 						a.pts[name] = pt
 					}
+					a.codecs = append(a.codecs, c23AnnCodec{pt: pt, name: name})
+				}
+			case "fmtp":
+				var pt int
+				if i := strings.IndexByte(at[1], ' '); i > 0 {
+					if n, _ := fmt.Sscanf(at[1][:i], "%d", &pt); n == 1 {
+						for k := range a.codecs {
+							if a.codecs[k].pt == pt {
+								a.codecs[k].fmtp = at[1][i+1:]
+							}
+						}
+					}
 				}
 			case "sendrecv", "sendonly", "recvonly", "inactive":
 				a.direction = at[0]
@@ -648,6 +777,10 @@ func c23ReadDescription(raw string) (map[string]*c23Announced, error) {
 		out[mid] = a
 	}
 	return out, nil
+}
+
+func c23CdcCoq(c webrtc.RTPCodecParameters) string {
+	return fmt.Sprintf("(Cdc %d %s %d %d %s)", c.PayloadType, CoqString(c.MimeType), c.ClockRate, c.Channels, CoqString(c.SDPFmtpLine))
 }
 
 func c23CodecList(cs []webrtc.RTPCodecParameters) string {
@@ -664,7 +797,11 @@ func c23MediaRun(in c23Media) (V, Verdict) {
 	// a run that fails before the observation exists is still handed to the
 	// model (as an empty description), so the suite always has a case file
 	c23Remember(in, "(MediaIn [] (Eng false [] false [] [] []) [])")
-	meO, meA := c23Engine(in.RTX, in.FEC, 0), c23EngineSwap(in.RTX, in.FEC, in.PTShift, in.PTSwap)
+	variants := in.Variants
+	for _, t := range in.Tracks {
+		variants = variants || c23IsVariant(t.Codec)
+	}
+	meO, meA := c23EngineSwap(in.RTX, in.FEC, 0, false, variants), c23EngineSwap(in.RTX, in.FEC, in.PTShift, in.PTSwap, variants)
 	tap := &c23Tap{seen: map[uint32]map[uint8]int{}}
 	irO, irA := &interceptor.Registry{}, &interceptor.Registry{}
 	if in.AnswererSends {
@@ -819,10 +956,9 @@ func c23MediaRun(in c23Media) (V, Verdict) {
 			}
 			// warm-up: until the first packet has been read from the remote track
 			var rt *c23RecvTrack
-			name := strings.ToLower(strings.SplitN(c23Codecs[t.Codec].Cap.MimeType, "/", 2)[1])
 			wantPT := -1
 			if a := adesc[mid]; a != nil {
-				if pt, ok := a.pts[name]; ok {
+				if pt, ok := a.negotiatedPT(c23Codecs[t.Codec].Cap); ok {
 					wantPT = pt
 				}
 			}
@@ -945,13 +1081,10 @@ func c23MediaRun(in c23Media) (V, Verdict) {
 			}
 		}
 		tr := rt.track
-		name := strings.ToLower(strings.SplitN(def.Cap.MimeType, "/", 2)[1])
+		name := c23EncName(def.Cap.MimeType)
 		wantPT, okPT := -1, false
 		if a := adesc[smid]; a != nil {
-			wantPT, okPT = a.pts[name], true
-			if _, ok := a.pts[name]; !ok {
-				okPT = false
-			}
+			wantPT, okPT = a.negotiatedPT(def.Cap)
 		}
 		rt.mu.Lock()
 		pkts := append([]*rtp.Packet(nil), rt.pkts...)
@@ -972,7 +1105,14 @@ func c23MediaRun(in c23Media) (V, Verdict) {
 			case !okPT:
 				fail(Fail("codec-missing-from-answer", fmt.Sprintf("track %d: no rtpmap for %s in mid %q of the answer", i, name, smid)))
 			case int(p.PayloadType) != wantPT:
-				fail(Fail("packet-payload-type-not-negotiated", fmt.Sprintf("track %d (%s): packet PT %d, answer negotiates %d", i, name, p.PayloadType, wantPT)))
+				sig := "packet-payload-type-not-negotiated"
+				for _, x := range adesc[smid].codecs {
+					if x.pt == int(p.PayloadType) && x.name == name {
+						// a payload type of the right codec family, but of another format of it
+						sig = "packet-payload-type-of-another-fmtp-variant"
+					}
+				}
+				fail(Fail(sig, fmt.Sprintf("track %d (%s %q): packet PT %d, answer negotiates %d for that format", i, name, def.Cap.SDPFmtpLine, p.PayloadType, wantPT)))
 			case s == nil:
 				fail(Fail("packet-never-written", fmt.Sprintf("track %d: sequence number %d was not written", i, p.SequenceNumber)))
 			case seen[p.SequenceNumber]:
@@ -995,6 +1135,9 @@ func c23MediaRun(in c23Media) (V, Verdict) {
 		case !strings.EqualFold(codec.MimeType, def.Cap.MimeType) || codec.ClockRate != def.Cap.ClockRate || codec.Channels != def.Cap.Channels:
 			fail(Fail("remote-track-codec-differs", fmt.Sprintf("track %d: sent %s/%d/%d, TrackRemote.Codec() %s/%d/%d", i,
 				def.Cap.MimeType, def.Cap.ClockRate, def.Cap.Channels, codec.MimeType, codec.ClockRate, codec.Channels)))
+		case !c23SameFormat(name, codec.SDPFmtpLine, def.Cap.SDPFmtpLine):
+			fail(Fail("remote-track-codec-fmtp-differs", fmt.Sprintf("track %d: sent %s %q, TrackRemote.Codec() reports %q (PT %d)", i,
+				def.Cap.MimeType, def.Cap.SDPFmtpLine, codec.SDPFmtpLine, codec.PayloadType)))
 		case int(codec.PayloadType) != wantPT || int(tr.PayloadType()) != wantPT:
 			fail(Fail("remote-track-payload-type-differs", fmt.Sprintf("track %d: negotiated %d, TrackRemote reports %d/%d", i, wantPT, codec.PayloadType, tr.PayloadType())))
 		case tr.Kind() != def.Kind:
@@ -1027,14 +1170,14 @@ func c23MediaRun(in c23Media) (V, Verdict) {
 		}
 		cls := make([]string, len(hay))
 		for k, h := range hay {
-			_, m := webrtc.VerifC23FuzzySearch(webrtc.RTPCodecParameters{RTPCodecCapability: def.Cap}, []webrtc.RTPCodecParameters{h})
-			cls[k] = fmt.Sprintf("(%d, %d)", h.PayloadType, m)
+			cls[k] = c23CdcCoq(h)
 		}
 		// cross-check of the class vector against the real search over the whole list
 		if c, m := webrtc.VerifC23FuzzySearch(webrtc.RTPCodecParameters{RTPCodecCapability: def.Cap}, hay); m == 0 || int(c.PayloadType) != wirePT {
 			fail(Fail("bound-payload-type-not-the-fuzzy-search-result", fmt.Sprintf("track %d: search gives PT %d (match %d), wire PT %d", i, c.PayloadType, m, wirePT)))
 		}
-		rows = append(rows, row{rmid, obs, fmt.Sprintf("(Wire %s %d %s)", CoqString(smid), wirePT, CoqList(cls))})
+		rows = append(rows, row{rmid, obs, fmt.Sprintf("(Wire %s %d %s %s)", CoqString(smid), wirePT,
+			c23CdcCoq(webrtc.RTPCodecParameters{RTPCodecCapability: def.Cap}), CoqList(cls))})
 	}
 	rmu.Lock()
 	if len(rtracks) != len(in.Tracks) {
@@ -1086,6 +1229,9 @@ func c23MediaRun(in c23Media) (V, Verdict) {
 		if in.PTSwap {
 			cls += "/pt-swap"
 		}
+		if variants {
+			cls += "/variants"
+		}
 		if in.Shim != nil {
 			cls += "/shim"
 		}
@@ -1118,6 +1264,19 @@ func c23MediaMatrix() []c23Media {
 		{Tracks: []c23MTrack{t("vp8", 10, 16)}, PTSwap: true, RTX: true},
 		{Tracks: []c23MTrack{t("h264", 10, 17)}, PTSwap: true, AnswererSends: true},
 		{Tracks: []c23MTrack{t("vp8", 10, 18), t("opus", 8, 19)}, PTSwap: true, AnswererSends: true, RTX: true, Data: true},
+		// codec families with several registered variants that differ only in
+		// fmtp: send with EACH variant, the table carrying all of them
+		{Tracks: []c23MTrack{t("h264", 8, 20)}, Variants: true, RTX: true},
+		{Tracks: []c23MTrack{t("h264-pm0", 8, 21)}, AnswererSends: true},
+		{Tracks: []c23MTrack{t("h264-42e01f", 8, 22)}},
+		{Tracks: []c23MTrack{t("h264-42e01f-pm0", 8, 23)}, RTX: true, AnswererSends: true, PTShift: 7},
+		{Tracks: []c23MTrack{t("h264-4d001f", 8, 24)}, RTX: true, Data: true},
+		{Tracks: []c23MTrack{t("h264-4d001f-pm0", 8, 25)}, PTSwap: true},
+		{Tracks: []c23MTrack{t("h264-64001f", 8, 26)}, AnswererSends: true, RTX: true},
+		{Tracks: []c23MTrack{t("vp9", 8, 27)}, Variants: true, PTShift: 7},
+		{Tracks: []c23MTrack{t("vp9-p2", 8, 28)}, RTX: true},
+		{Tracks: []c23MTrack{t("vp9-p2", 8, 29), t("opus", 6, 30)}, AnswererSends: true, FEC: true},
+		{Tracks: []c23MTrack{t("h264-42e01f", 6, 31), t("h264-4d001f-pm0", 6, 32)}, RTX: true},
 		// witness of the known finding: an id with a space (outside the msid grammar)
 		{Tracks: []c23MTrack{{Codec: "vp8", StreamID: "my stream", TrackID: "cam", N: 6, Seed: 15}}, RTX: true},
 	}
@@ -1131,6 +1290,11 @@ func c23GenMedia(r *Rand, i int, shim bool) c23Media {
 		m.PTSwap = true
 	}
 	kinds := [][]string{{"opus"}, {"vp8"}, {"vp9"}, {"h264"}, {"av1"}, {"opus", "vp8"}, {"opus", "h264"}, {"opus", "av1"}, {"vp9", "opus"}}
+	if r.Chance(1, 2) { // a variant of a family with several registered formats
+		m.Variants = true
+		v := Pick(r, c23VideoOrderVariants[1:])
+		kinds = [][]string{{v}, {v}, {"opus", v}, {v, Pick(r, c23VideoOrderVariants[1:])}}
+	}
 	for _, c := range Pick(r, kinds) {
 		m.Tracks = append(m.Tracks, c23MTrack{Codec: c, StreamID: Pick(r, []string{"s", "stream", "{6f1c}", "a:b"}) + fmt.Sprint(i),
 			TrackID: Pick(r, c23IDs[:11]), N: r.Range(4, 30), Seed: r.U64() >> 12})
